@@ -81,41 +81,123 @@ def default_result(name, body):
 
 ERRNO = {'ENOSYS': 38, 'ENOTTY': 25, 'EINVAL': 22, 'ENOENT': 2}
 
-def classify_vfs_method(name, params, body):
-    """-> dict(cls=plain|entry|hand, validate=[names validated], gate=None|no_open|no_opendir, inode=<param>)"""
-    b = norm(body)[1:-1]
-    validate = []
-    gate = None
+# ---- structural reading of a method body (names of locals / closure parameters, formatting, early-return vs if/else,
+# hoisted `let x = idata.ino();`, `?` vs and_then spellings do not matter; what is read is: which names are validated, which
+# option gates the method, which parameter is routed on, which backend method both arms call with which arguments, and whether
+# the backend arm converts a returned entry)
+def split_top(s, sep=','):
+    """split at top-level separators (outside (), [], {}, <> is not tracked: closures |a, b| are protected)"""
+    out = []; d = 0; cur = ''; bar = False; i = 0
+    while i < len(s):
+        c = s[i]
+        if c in '([{': d += 1
+        elif c in ')]}': d -= 1
+        elif c == '|' and not s.startswith('||', i) and (i == 0 or s[i - 1] != '|'):
+            bar = not bar if (bar or re.match(r'\|[\w\s,()&_:]*\|', s[i:])) else bar
+        if c == sep and d == 0 and not bar:
+            out.append(cur); cur = ''
+        else: cur += c
+        i += 1
+    if cur: out.append(cur)
+    return out
+
+def match_arms(b, start):
+    """b[start] == '{' of a match: -> ([(pattern, body)], index after the closing brace); text is whitespace-free"""
+    end = block_at(b, start); inner = b[start + 1:end - 1]; arms = []; i = 0
+    while i < len(inner):
+        j = inner.find('=>', i)
+        if j < 0: break
+        pat = inner[i:j]; k = j + 2
+        if k < len(inner) and inner[k] == '{':
+            e = block_at(inner, k); body = inner[k:e]; k = e
+            if k < len(inner) and inner[k] == ',': k += 1
+        else:
+            d = 0; e = k; bar = False
+            while e < len(inner):
+                c = inner[e]
+                if c in '([{': d += 1
+                elif c in ')]}': d -= 1
+                elif c == ',' and d == 0:
+                    # a comma inside a closure parameter list |a, b| is at depth 0 only between two bars
+                    seg = inner[k:e]
+                    if seg.count('|') % 2 == 0: break
+                e += 1
+            body = inner[k:e]; k = e + 1
+        arms.append((pat, body)); i = k
+    return arms, end
+
+def unbrace(x):
+    return x[1:-1] if x.startswith('{') and x.endswith('}') and block_at(x, 0) == len(x) else x
+
+def inline_lets(body):
+    """`let [mut] v = <expr without side effects on routing>;` hoisted before the final expression: substitute"""
     while True:
-        m = re.match(r'validate_path_component\((\w+)\)\?;', b)
-        if m: validate.append(m.group(1)); b = b[m.end():]; continue
-        m = re.match(r'(?:#\[cfg\(target_os="linux"\)\])?ifself\.opts\.load\(\)\.(no_open|no_opendir)\{returnErr\(Error::from_raw_os_error\(libc::ENOSYS\)\);\}', b)
-        if m: gate = m.group(1); b = b[m.end():]; continue
-        break
+        m = re.match(r'let(?:mut)?(\w+)=((?:\w+\.)*\w+\(\)|\w+);', body)
+        if not m: return body
+        v, e = m.group(1), m.group(2)
+        body = re.sub(r'(?<![\w.])%s(?![\w(])' % re.escape(v), e, body[m.end():])
+
+def read_call(expr, fsvar):
+    """expr starts with <fsvar>.<method>(args)... -> (method, [args], rest-of-chain) or None"""
+    m = re.match(r'%s\.(\w+)\(' % re.escape(fsvar), expr)
+    if not m: return None
+    i = m.end() - 1; d = 0
+    for j in range(i, len(expr)):
+        if expr[j] == '(': d += 1
+        elif expr[j] == ')':
+            d -= 1
+            if d == 0: return m.group(1), [a for a in split_top(expr[i + 1:j]) if a != ''], expr[j + 1:]
+    return None
+
+def returns_entry(ret):
+    return bool(re.match(r'->(?:io::)?Result<\(?Entry\b', ret or ''))
+
+def classify_vfs_method(name, params, body, ret=''):
+    """-> dict(cls=plain|entry|hand, validate=[names validated], gate=None|no_open|no_opendir, names=[CStr params], shape=read|assumed:<why>)"""
+    b = norm(body)[1:-1]
+    # what is validated / gated: by presence, wherever and however it is spelled
+    validate = re.findall(r'validate_path_component\((\w+)\)', b)
+    gates = set(re.findall(r'if[\w.()]*\.(no_open|no_opendir)\{', b))
+    gate = sorted(gates)[0] if gates else None
     if name in HAND:
         return {'cls': 'hand', 'validate': validate, 'gate': gate}
-    m = re.fullmatch(r'matchself\.get_real_rootfs\((\w+)\)\?\{\(Left\(fs\),idata\)=>(.*?),?\(Right\(fs\),idata\)=>(.*?),?\}', b)
-    if not m: raise TranslateError('Vfs::%s: body is not a get_real_rootfs match: %s' % (name, b[:160]))
-    ino, left, right = m.group(1), m.group(2), m.group(3)
-    def unbrace(x):
-        return x[1:-1] if x.startswith('{') and x.endswith('}') else x
-    left, right = unbrace(left), unbrace(right)
-    call = re.match(r'fs\.(\w+)\(ctx,((?:\w+,)*?)idata\.ino\(\),?(.*)\)$', left)
-    if not call or call.group(1) != name:
-        raise TranslateError('Vfs::%s: Left arm does not forward to fs.%s(ctx, .., idata.ino(), ..): %s' % (name, name, left[:160]))
-    if right == left:
-        cls = 'plain'
-    else:
-        r1 = left + '.and_then(|e|self.convert_backend_entry(idata,e))'
-        r2 = left + '.and_then(|(a,b,c,d)|{self.convert_backend_entry(idata,a).map(|a|(a,b,c,d))})'
-        if right in (r1, r2): cls = 'entry'
-        else: raise TranslateError('Vfs::%s: Right arm is neither the Left arm nor Left + convert_backend_entry: %s' % (name, right[:200]))
-    # the inode parameter must be the first VfsInode parameter
-    pm = re.findall(r'(\w+):\s*(?:Self::Inode|VfsInode)', params)
-    if not pm or pm[0] != ino: raise TranslateError('Vfs::%s: routes on %s, first inode parameter is %s' % (name, ino, pm[:1]))
-    if len(pm) != 1: raise TranslateError('Vfs::%s: more than one inode parameter in a table-driven method' % name)
+    if len(gates) > 1: raise TranslateError('Vfs::%s consults more than one option gate: %s' % (name, sorted(gates)))
     names = re.findall(r'(\w+):\s*&CStr', params)
-    return {'cls': cls, 'validate': validate, 'gate': gate, 'names': names}
+    pm = re.findall(r'(\w+):\s*(?:Self::Inode|VfsInode)', params)
+    if len(pm) != 1: raise TranslateError('Vfs::%s: a table-driven method must have exactly one inode parameter, has %s' % (name, pm))
+    assumed = {'cls': 'entry' if returns_entry(ret) else 'plain', 'validate': validate, 'gate': gate, 'names': names}
+    def fallback(why):
+        # the shape cannot be read: keep what the signature implies (a method returning an Entry converts it, any other is
+        # forwarded unchanged) and let the replay of histories, which runs every method on every kind of inode, decide
+        d = dict(assumed); d['shape'] = 'assumed: ' + why; return d
+    m = re.search(r'matchself\.get_real_rootfs\((\w+)\)\?\{', b)
+    if not m: return fallback('no `match self.get_real_rootfs(..)?`')
+    if m.group(1) != pm[0]: raise TranslateError('Vfs::%s routes on `%s`, its inode parameter is `%s`' % (name, m.group(1), pm[0]))
+    arms, _ = match_arms(b, m.end() - 1)
+    sides = {}
+    for pat, ab in arms:
+        pmn = re.fullmatch(r'\((Left|Right)\((\w+)\),(\w+)\)', pat)
+        if not pmn: return fallback('arm pattern %s' % pat)
+        side, fsv, idv = pmn.groups()
+        ab = inline_lets(unbrace(ab))
+        # alpha-rename the binders of the arm
+        ab = re.sub(r'(?<![\w.])%s(?=\.)' % re.escape(fsv), 'fs', ab)
+        ab = re.sub(r'(?<![\w.])%s(?![\w(])' % re.escape(idv), 'idata', ab)
+        sides[side] = ab
+    if set(sides) != {'Left', 'Right'}: return fallback('arms %s' % sorted(sides))
+    cl, cr = read_call(sides['Left'], 'fs'), read_call(sides['Right'], 'fs')
+    if not cl or not cr: return fallback('an arm does not start with a call on the file system')
+    if cl[0] != name or cr[0] != name:
+        raise TranslateError('Vfs::%s forwards to fs.%s / fs.%s' % (name, cl[0], cr[0]))
+    if cl[1] != cr[1]: raise TranslateError('Vfs::%s: the two arms pass different arguments: %s vs %s' % (name, cl[1], cr[1]))
+    if cl[1][:1] != ['ctx'] or 'idata.ino()' not in cl[1]:
+        raise TranslateError('Vfs::%s does not pass (ctx, .., idata.ino(), ..) to the backend: %s' % (name, cl[1]))
+    chain_l, chain_r = cl[2], cr[2]
+    if 'self.' in chain_l: return fallback('the pseudo arm post-processes with %s' % chain_l[:80])
+    if 'self.convert_backend_entry(idata,' in chain_r and chain_r.count('self.') == 1: cls = 'entry'
+    elif 'self.' not in chain_r: cls = 'plain'
+    else: return fallback('the backend arm post-processes with %s' % chain_r[:120])
+    return {'cls': cls, 'validate': validate, 'gate': gate, 'names': names, 'shape': 'read'}
 
 def translate(repo):
     rd = lambda p: strip_comments(open(os.path.join(repo, p)).read())
@@ -132,7 +214,17 @@ def translate(repo):
         ent = {'name': name, 'code': code, 'default': default_result(name, body), 'cfg': cfg,
                'pseudo_overrides': name in pseudo_names, 'vfs': None, 'unit': ret in ('->io::Result<()>', '')}
         if name in vfs_by:
-            ent['vfs'] = classify_vfs_method(name, vfs_by[name][1], vfs_by[name][2])
+            try:
+                ent['vfs'] = classify_vfs_method(name, vfs_by[name][1], vfs_by[name][2], vfs_by[name][4])
+            except TranslateError as ex:
+                # the method is there but its routing cannot be read as a plain forward: report it (broken tie) and keep what
+                # the signature implies, so that the histories still run and can exhibit a concrete failing input
+                if name in HAND: raise
+                t['errors'].append(str(ex))
+                ent['vfs'] = {'cls': 'entry' if returns_entry(vfs_by[name][4]) else 'plain',
+                              'validate': re.findall(r'validate_path_component\((\w+)\)', norm(vfs_by[name][2])),
+                              'gate': (re.findall(r'if[\w.()]*\.(no_open|no_opendir)\{', norm(vfs_by[name][2])) or [None])[0],
+                              'names': re.findall(r'(\w+):\s*&CStr', vfs_by[name][1]), 'shape': 'assumed: ' + str(ex)}
         t['methods'].append(ent)
     # which name a validating table-driven method validates: must be its only CStr parameter, or all of them
     for e in t['methods']:
@@ -162,8 +254,10 @@ def translate(repo):
         t['async_twins'].append(m[0][6:])
     # server: ctx remap by header nodeid before dispatch
     srv_mod = norm(rd('src/api/server/mod.rs')); srv_sync = norm(rd('src/api/server/sync_io.rs'))
-    t['server_remaps_by_nodeid'] = ('letnodeid=ctx.nodeid();self.fs.id_remap_with_nodeid(&mutctx.context,nodeid)' in srv_mod
-        and 'letmutctx=SrvContext::<F,S>::new(in_header,r,w);self.remap_ctx_ids(&mutctx)?;' in srv_sync)
+    t['server_remaps_by_nodeid'] = bool(
+        (re.search(r'let(\w+)=(\w+)\.nodeid\(\);self\.fs\.id_remap_with_nodeid\(&mut\2\.context,\1\)', srv_mod)
+         or re.search(r'self\.fs\.id_remap_with_nodeid\(&mut(\w+)\.context,\1\.nodeid\(\)\)', srv_mod))
+        and re.search(r'letmut(\w+)=SrvContext::<F,S>::new\(\w+,\w+,\w+\);self\.remap_ctx_ids\(&mut\1\)\?;', srv_sync))
     if not t['server_remaps_by_nodeid']:
         raise TranslateError('Server::handle_message no longer remaps the context by header nodeid right after building it')
     return t
